@@ -1,6 +1,6 @@
 (* Property C06 — identifiers are verbatim; normalize_names only strips outer delimiters. *)
 From Coq Require Import String Ascii List ZArith NArith Bool.
-From SDP Require Import Base PyStr Actions KeywordProofs IdProofs.
+From SDP Require Import Base PyStr Lexer Actions Parse Engine Seq KeywordProofs IdProofs Entity Table TableProofs Alter AlterProofs AlterKeyProofs.
 Import ListNotations.
 Open Scope string_scope.
 
@@ -32,3 +32,34 @@ Print Assumptions C06_normalize_strips_one_pair.
 (* in particular a doubly delimited name keeps its inner pair (defect D9, fixed) *)
 Example C06_nested_delimiters_keep_inner_pair : normalize_id """[a]""" = "[a]".
 Proof. vm_compute. reflexivity. Qed.
+
+(* ---------- every name position of the statement fragments under a theorem ----------------------------------------------------
+   Without normalize_names ([nms false s] is [s] itself, by computation) the parsed entity carries every table, schema, column,
+   referenced table / column, constraint and action word exactly as written — for every CREATE TABLE of the core fragment
+   (names over plain words and the accepted keywords, any letter case, any delimiters that keep the word a plain word) and
+   every ALTER TABLE of the fragment; with normalize_names=True the same positions carry [normalize_id s], which strips exactly
+   one outer pair of delimiters (theorems above). *)
+Theorem C06_name_as_written : forall s, nms false s = s /\ nms true s = normalize_id s.
+Proof. intro s. split; reflexivity. Qed.
+Print Assumptions C06_name_as_written.
+Theorem C06_table_names_verbatim : forall t silent, Table.wf false t = true ->
+  parse_lexemes false silent (Table.lexemes t) = Ok (Some (Table.denote false t)).
+Proof. intros t silent H. exact (table_parse t false silent H). Qed.
+Print Assumptions C06_table_names_verbatim.
+Theorem C06_table_names_normalized : forall t silent, Table.wf true t = true ->
+  parse_lexemes true silent (Table.lexemes t) = Ok (Some (Table.denote true t)).
+Proof. intros t silent H. exact (table_parse t true silent H). Qed.
+Print Assumptions C06_table_names_normalized.
+Theorem C06_alter_names : forall a norm silent, Alter.wf norm a = true ->
+  parse_lexemes norm silent (Alter.lexemes a) = Ok (Some (Alter.denote norm a)).
+Proof. exact alter_parse. Qed.
+Print Assumptions C06_alter_names.
+(* a mixed-case, delimited and keyword-named example, both settings *)
+Example C06_names_example :
+  let t := mkTable "CREATE" "TABLE" (Some "[Dev]") "`Order`" (mkCol "Comment" "INT" None None []) [mkCol "UserName" "text" None None []] in
+  Table.wf false t = true /\ Table.wf true t = true /\
+  Table.denote false t = PDict [("schema", PStr "[Dev]"); ("table_name", PStr "`Order`");
+                                ("columns", PList [PDict (cdict "Comment" "INT" PNone cs0); PDict (cdict "UserName" "text" PNone cs0)]); ("checks", PList [])] /\
+  Table.denote true t = PDict [("schema", PStr "Dev"); ("table_name", PStr "Order");
+                               ("columns", PList [PDict (cdict "Comment" "INT" PNone cs0); PDict (cdict "UserName" "text" PNone cs0)]); ("checks", PList [])].
+Proof. vm_compute. repeat split. Qed.
